@@ -82,6 +82,10 @@ def history(rng, nv, length):
             emit(["nested", partial_table(rng, rng.choice(CONNS)), inner, P(), P(), "v" + "".join(rng.choice("01") for _ in range(nv))])
         elif k < 0.68:
             lits = ["L"] + [["P", str(v), rng.choice("TF")] for v in range(nv) if rng.random() < 0.35]
+            if len(lits) > 1 and rng.random() < 0.25:
+                # the same variable twice in a sorted list (adjacent): with the same value, or contradicting
+                i = rng.randrange(1, len(lits))
+                lits.insert(i, ["P", lits[i][1], lits[i][2] if rng.random() < 0.6 else rng.choice("TF")])
             emit([rng.choice(["select", "restrict"]), P(), lits])
         elif k < 0.72 and nv:
             emit([rng.choice(["var_select", "var_restrict"]), P(), x, rng.choice("TF")])
